@@ -71,7 +71,7 @@ PROPS = {
         nontrivial=store_nontrivial, hist=store_hist, rule=STORE_RULE, assumptions=COMMON_ASSUME,
     ),
     'C03': dict(
-        extra_modules=['GraphrsModel.Props.Core'],
+        extra_modules=['GraphrsModel.Props.Core', 'GraphrsModel.Props.C03Rows'],
         gens=[('store', 'weights', 4000, 60000, 12)],
         spec_fields=[r'travs', r'travp', r'edges'],
         model_fields=[r'travs', r'travp', r'edges', r'snap\.successors_vec', r'snap\.predecessors_vec', r'poison', r'agree\.wf'],
@@ -173,7 +173,7 @@ PROPS.update({
         assumptions=COMMON_ASSUME + ['f64 rounding of the accumulation is not modelled: values are compared with relative tolerance 1e-9'],
     ),
     'C06': dict(
-        extra_modules=['GraphrsModel.Props.C06Model'],
+        extra_modules=['GraphrsModel.Props.C06Model', 'GraphrsModel.Props.C03Rows'],
         gens=[('cen', 'small', 1500, 25000, 8), ('cen', 'parallel', 20, 200, 36)],
         spec_fields=[r'cc0:q', r'cc1:q'], model_fields=[r'build', r'cc0:q', r'cc1:q'],
         nontrivial=cen_nontrivial, hist=cen_hist, rule=CEN_RULE,
@@ -353,7 +353,7 @@ PROPS.update({
         nontrivial=lambda req, I: (I.get('esc', '.') != '.') if req.startswith('esc') else
                                   (I.get('redges', '.') not in ('.', '') and not I.get('redges', '').startswith('E')),
         hist=lambda req, I: esc_hist(req, I) if req.startswith('esc') else xml_hist(req, I),
-        extra_modules=['GraphrsModel.Props.C14Escape'],
+        extra_modules=['GraphrsModel.Props.C14Escape', 'GraphrsModel.Props.C14Full'],
         rule='random graphs of all 8 kinds (0..6 nodes) over string names built from XML-special characters, spaces, entity-looking text, '
              'non-ASCII and astral characters, the empty string and the words the reader looks for; weights: signed zero, subnormals, '
              '1.797e308, +-inf, random bit patterns, 25% unweighted; write_graphml_string + write_graphml_file, then read_graphml_string with '
